@@ -11,9 +11,9 @@ VERUS_UNITS = {
     'U-MP': dict(module='contracts.verus.msgpack_size', min_verified=37, timeout=600,
                  native_search=dict(src='src/msgpack.rs', file='msgpack_search.rs'),
                  props=['C18', 'C04', 'C02', 'C03', 'C06', 'C01']),
-    'U-CHK-V': dict(module='contracts.verus.yaml_chunker', min_verified=22, timeout=600,
+    'U-CHK-V': dict(module='contracts.verus.yaml_chunker', min_verified=24, timeout=600,
                     native_search=dict(src='src/yaml/chunker.rs', file='chunker_search.rs'),
-                    props=['C03', 'C05', 'C04', 'C02', 'C12', 'C07']),
+                    props=['C03', 'C05', 'C04', 'C02', 'C12', 'C07', 'C10', 'C09']),
     'U-ENC-V': dict(module='contracts.verus.yaml_encoding', min_verified=15, timeout=600,
                     native_search=dict(src='src/yaml/encoding.rs', file='encoder_search.rs'),
                     props=['C07', 'C02', 'C04', 'C05', 'C12', 'C01']),
@@ -413,9 +413,10 @@ PROPERTIES = {
                      'reading through the chain built by Input::from(handle) and Ref::prefix through Box<dyn Read> (out of CBMC\'s reach; the decision of Input::from, capture_up_to_size and FusedReader are under contract)']),
     'C10': dict(
         explanation='Gate/order skeleton only: MessagePack trial runs iff byte 0 is a map/array marker (all 256 bytes), so JSON, YAML (---) and ASCII-first TOML output never enter it, and every '
-                    'map/array header does; fixed trial order. Thinnest claim of the set.',
+                    'map/array header does; fixed trial order. YAML verdict (Verus U-CHK-V, verbatim yaml::input_matches against the PROVED contract of Chunker::next): Ok(true) iff the chunker\'s first answer is a document whose first content event opens a sequence or mapping; '
+                    'a scalar / empty / invalid first document and an empty stream give Ok(false); the function never answers from anything but that one chunk. Thinnest claim of the set.',
         assumptions=['what each writer emits first', 'JSON/YAML trials reject the other formats\' output'],
-        not_covered=['everything about serde_json / serde_yaml / toml accepting or rejecting text', 'the TOML exceptions in the statement', 'yaml::input_matches collection-only rule (calls libyaml)']),
+        not_covered=['everything about serde_json / serde_yaml / toml accepting or rejecting text', 'the TOML exceptions in the statement', 'libyaml itself behind yaml::input_matches (assumed event contract)']),
     'C11': dict(
         explanation='Error attribution of the streaming transcoder against adversarial mocks with ghost own/synthetic tags and a first-failure record: deserializer failed first => Error::De(own error); '
                     'serializer failed first at any position (scalar, serialize_seq/map, before / inside / after an element, key, value, end) => Error::Ser(that own error); a synthetic '
